@@ -888,3 +888,51 @@ def A7_tolerance_provenance(repo, clause, funcs=None):
 def _is_math(fn, c):
     return isinstance(c.func, ast.Attribute) and isinstance(c.func.value, ast.Name) and \
         fn.module.imports.get(c.func.value.id, ("",))[0] == "math"
+
+
+CONFIRMED_MUTATORS = {
+    # module-level functions that are *documented* to modify their argument in place
+    "retype_atoms_from_uff_types": {"atoms"},
+    "assign_pair_coeffs": {"atoms"},
+    "assign_bond_types": {"atoms"},
+    "assign_angle_types": {"atoms"},
+    "assign_dihedral_types": {"atoms"},
+    "assign_pair_params_to_structure": {"structure"},
+    "add_aromatic_flag": {"g"},
+}
+CONFIRMED_MUTATING_METHODS = {"__init__", "assert_arrays_are_consistent_sizes", "translate", "extend_types", "_extend_extra_fields",
+                              "extend", "__delitem__", "pop"}
+
+
+def A1w_who_may_mutate(repo, clause, roots=("replace_pattern_in_structure", "find_pattern_in_structure", "Atoms.replicate", "Atoms.__getitem__", "detect_bonds")):
+    """Every module-level function reachable (call graph) from the read-only entry points has an effect summary that
+    mutates none of its parameters; Atoms methods reached from them may only mutate `self`."""
+    eff = repo.effects
+    obs = []
+    seen = set()
+    work = [repo.fn(r) for r in roots]
+    while work:
+        fn = work.pop()
+        if fn in seen:
+            continue
+        seen.add(fn)
+        for f2 in [fn] + [g for g in repo.all_fns() if g.outer is fn]:
+            for c in calls_in(f2):
+                callee, kind = eff.resolve(f2, c)
+                if callee is not None and callee not in seen:
+                    work.append(callee)
+    for fn in sorted(seen, key=lambda f: (f.relpath, f.node.lineno)):
+        if fn.outer is not None:
+            continue
+        muts = {p for p in eff.mut[fn] if not p.startswith("free:")}
+        if fn.cls == "Atoms":
+            other = muts - {"self"}
+            obs.append(Ob("A1w", clause, fn, fn.node, not other,
+                          "method %s (reachable from the read-only entry points) mutates %s; only `self` is allowed" % (fn.qualname, sorted(muts) or "nothing"),
+                          construct="def %s" % fn.name, slot="method"))
+        else:
+            obs.append(Ob("A1w", clause, fn, fn.node, not muts,
+                          "function %s (reachable from the read-only entry points) mutates parameter(s) %s" % (fn.qualname, sorted(muts) or "none"),
+                          construct="def %s" % fn.name, slot="function"))
+    floor("A1w", "functions reachable from the read-only entry points", len(obs), 15)
+    return obs
